@@ -5,6 +5,7 @@
 -/
 import YawVerif.Drv.Common
 import YawVerif.Drv.Cont
+import YawVerif.Model.BinSpec
 
 open Yaw Yaw.Proto Yaw.Drv
 
@@ -82,6 +83,16 @@ def hHistJk : R String := do
       out := out.push (fmtRat (Spec.looSum N (fun i => c.getD (i * B + b) 0) k))
   pure (join out)
 
+/-- `bin closedRight B edges(B+1) n (z w)*n` → per-bin weight sums by the closed-side rule -/
+def hBin : R String := do
+  let cr ← Proto.bool
+  let B ← nat
+  let edges ← rats (B + 1)
+  let n ← nat
+  let flat ← rats (2 * n)
+  let objs := (List.range n).map fun i => (flat.getD (2 * i) 0, flat.getD (2 * i + 1) 0)
+  pure (join ((Bin.specSums cr (vec edges) B objs).map fmtRat).toArray)
+
 def handler (kind : String) : R String :=
   match kind with
   | "cf" => hCf
@@ -90,6 +101,7 @@ def handler (kind : String) : R String :=
   | "nz" => hNz
   | "histjk" => hHistJk
   | "cont" => hCont
+  | "bin" => hBin
   | _ => throw s!"unknown kind {kind}"
 
 end Yaw.SpecDrv
